@@ -46,6 +46,27 @@ def method_names(trees):
     return out
 
 
+_FRESH = {}
+
+
+def _fresh_objects(fn, cls):
+    """locals of fn bound (only) to a newly created instance: ``self = cls()``, ``obj = Klass(..)`` of the enclosing
+    class, ``x = object.__new__(cls)``"""
+    key = id(fn)
+    if key in _FRESH and _FRESH[key][0] is fn:
+        return _FRESH[key][1]
+    binds = {}
+    for n in ast.walk(fn):
+        if isinstance(n, ast.Assign) and len(n.targets) == 1 and isinstance(n.targets[0], ast.Name):
+            v = n.value
+            fresh = isinstance(v, ast.Call) and ((isinstance(v.func, ast.Name) and v.func.id in ("cls", cls or "")) or (
+                isinstance(v.func, ast.Attribute) and v.func.attr == "__new__"))
+            binds.setdefault(n.targets[0].id, []).append(fresh)
+    out = {k for k, v in binds.items() if v and all(v)}
+    _FRESH[key] = (fn, out)
+    return out
+
+
 def rebinding_sites(trees):
     """({attr: set(class names where ``self.attr`` is re-bound outside __init__)}, set(attr re-bound through another
     receiver or outside any method))"""
@@ -74,6 +95,8 @@ def rebinding_sites(trees):
                 for n in ast.walk(t):
                     if isinstance(n, ast.Attribute) and isinstance(n.ctx, (ast.Store, ast.Del)):
                         in_init = fn is not None and fn.name in INIT_LIKE
+                        if fn is not None and isinstance(n.value, ast.Name) and n.value.id in _fresh_objects(fn, cls):
+                            continue        # an object this function has just created: still its construction
                         if isinstance(n.value, ast.Name) and n.value.id == "self" and cls is not None and fn is not None:
                             if not in_init:
                                 by_class.setdefault(n.attr, set()).add(cls)
@@ -425,11 +448,19 @@ def write_back(tree, related_classes, sites, only=None, keep=(), methods=()):
                     reads_public = public[0]
                     plain_attr = isinstance(e, (ast.Attribute, ast.Lambda, ast.Constant))
                     if isinstance(e, (ast.Dict, ast.Tuple)):
-                        # every use is a look-up  v[...]
-                        subs = [n for n in ast.walk(fn) if isinstance(n, ast.Subscript) and isinstance(n.value, ast.Name)
-                                and n.value.id == v and isinstance(n.ctx, ast.Load)]
+                        # every use only reads it: a look-up v[...], the iterable of a loop / comprehension, `x in v`
+                        reads_ = 0
+                        for n in ast.walk(fn):
+                            if isinstance(n, ast.Subscript) and isinstance(n.value, ast.Name) and n.value.id == v \
+                                    and isinstance(n.ctx, ast.Load):
+                                reads_ += 1
+                            elif isinstance(n, (ast.For, ast.comprehension)) and isinstance(n.iter, ast.Name) and n.iter.id == v:
+                                reads_ += 1
+                            elif isinstance(n, ast.Compare) and len(n.ops) == 1 and isinstance(n.ops[0], (ast.In, ast.NotIn)) \
+                                    and isinstance(n.comparators[0], ast.Name) and n.comparators[0].id == v:
+                                reads_ += 1
                         nloads = sum(1 for n in ast.walk(fn) if isinstance(n, ast.Name) and n.id == v and isinstance(n.ctx, ast.Load))
-                        if len(subs) != nloads:
+                        if reads_ != nloads:
                             continue
                         plain_attr = True
                     # every use after the binding, inside the block that holds it
